@@ -500,3 +500,290 @@ pub fn vp_roundtrip_rr(b: &crate::ReceiverReportBuilder, buf: &mut [u8])
 }
 
 } // verus!
+
+verus! {
+
+// ---- C04: APP ---------------------------------------------------------------------------------------------
+pub proof fn lemma_concat4(a: Seq<u8>, b: Seq<u8>, c: Seq<u8>, d: Seq<u8>)
+    ensures
+        (a + b + c + d).len() == a.len() + b.len() + c.len() + d.len(),
+        (a + b + c + d).subrange(0, a.len() as int) == a,
+        (a + b + c + d).subrange(a.len() as int, (a.len() + b.len()) as int) == b,
+        (a + b + c + d).subrange((a.len() + b.len()) as int, (a.len() + b.len() + c.len()) as int) == c,
+        (a + b + c + d).subrange((a.len() + b.len() + c.len()) as int, (a.len() + b.len() + c.len() + d.len()) as int) == d,
+{
+    let s = a + b + c + d;
+    assert(s.subrange(0, a.len() as int) =~= a);
+    assert(s.subrange(a.len() as int, (a.len() + b.len()) as int) =~= b);
+    assert(s.subrange((a.len() + b.len()) as int, (a.len() + b.len() + c.len()) as int) =~= c);
+    assert(s.subrange((a.len() + b.len() + c.len()) as int, (a.len() + b.len() + c.len() + d.len()) as int) =~= d);
+}
+
+/// framing facts of an image  header(4) | body | padding  whose total size is a multiple of 4 within the 16-bit length field
+#[verifier::spinoff_prover]
+pub proof fn lemma_framed_image(s: Seq<u8>, body: Seq<u8>, pad: int, count: int, pt: int, min: int)
+    requires
+        0 <= pad <= 255,
+        pad % 4 == 0,
+        0 <= count <= 31,
+        0 <= pt <= 255,
+        4 <= min <= 4 + body.len(),
+        (4 + body.len() + pad) % 4 == 0,
+        4 + body.len() + pad <= MAX_RTCP_BYTES,
+        s == img_header(pad, count, pt, 4 + body.len() + pad) + body + img_padding(pad),
+    ensures
+        s.len() == 4 + body.len() + pad,
+        framed(s, pt, min),
+        hdr_count(s) == count,
+        hdr_pad(s) == (pad > 0),
+        pad_count(s) == pad,
+        pad > 0 ==> s[s.len() - 1] == pad,
+        s.subrange(4, 4 + body.len() as int) == body,
+{
+    let total = 4 + body.len() as int + pad;
+    let hdr = img_header(pad, count, pt, total);
+    lemma_padding_img(pad);
+    lemma_concat3(hdr, body, img_padding(pad));
+    assert(s.subrange(0, 4) =~= hdr);
+    lemma_header_img(s, pad, count, pt, total);
+    if pad > 0 {
+        assert(s.subrange(4 + body.len() as int, total)[pad - 1] == s[total - 1]);
+    }
+}
+
+pub open spec fn app_body(ssrc: int, name: Seq<u8>, data: Seq<u8>) -> Seq<u8> {
+    img_be32(ssrc) + name + zeros(4 - name.len()) + data
+}
+
+// @LEMMA C04
+pub proof fn lemma_roundtrip_app(b: &crate::AppBuilder)
+    requires
+        b.spec_calc() is Ok,
+        12 + b.data@.len() + b.padding <= MAX_RTCP_BYTES,
+    ensures
+        ({
+            let s = b.spec_bytes();
+            &&& s.len() == b.spec_calc()->Ok_0
+            &&& app_ok(s)
+            &&& be32(s, 4) == b.ssrc
+            &&& hdr_count(s) == b.subtype
+            &&& s.subrange(8, 12) == b.name.spec_bytes() + zeros(4 - b.name.spec_bytes().len())
+            &&& app_data(s) == b.data@
+            &&& hdr_pad(s) == (b.padding > 0)
+            &&& (b.padding > 0 ==> s[s.len() - 1] == b.padding)
+        }),
+{
+    let s = b.spec_bytes();
+    let name = b.name.spec_bytes();
+    let pad = b.padding as int;
+    let body = app_body(b.ssrc as int, name, b.data@);
+    lemma_be32_img(b.ssrc as int);
+    lemma_concat4(img_be32(b.ssrc as int), name, zeros(4 - name.len()), b.data@);
+    assert(body.len() == 8 + b.data@.len());
+    let hdr = img_header(pad, b.subtype as int, 204, 12 + b.data@.len() + pad);
+    assert(s =~= hdr + body + img_padding(pad));
+    lemma_framed_image(s, body, pad, b.subtype as int, 204, 12);
+    assert(s.subrange(4, 8) =~= body.subrange(0, 4));
+    lemma_be32_at(s, 4, b.ssrc as int);
+    assert(s.subrange(8, 12) =~= name + zeros(4 - name.len()));
+    assert(app_data(s) =~= b.data@);
+}
+
+// @LEMMA C04
+pub fn vp_roundtrip_app(b: &crate::AppBuilder, buf: &mut [u8])
+    requires
+        b.spec_calc() is Ok,
+        12 + b.data@.len() + b.padding <= MAX_RTCP_BYTES,
+        old(buf).len() == b.spec_calc()->Ok_0,
+{
+    let n = b.write_into_unchecked(buf);
+    proof {
+        lemma_roundtrip_app(b);
+    }
+    let parsed = crate::App::parse(buf);
+    assert(parsed is Ok);
+    let p = parsed.unwrap();
+    let ssrc = p.ssrc();
+    let subtype = p.subtype();
+    let name = p.name();
+    let pad = p.padding();
+    let data = p.data();
+    assert(ssrc == b.ssrc);
+    assert(subtype == b.subtype);
+    assert(name@ == b.name.spec_bytes() + zeros(4 - b.name.spec_bytes().len()));
+    assert(data@ == b.data@);
+    assert(pad == (if b.padding == 0 { None::<u8> } else { Some(b.padding) }));
+}
+
+// ---- C04: BYE ---------------------------------------------------------------------------------------------
+pub proof fn lemma_img_u32s(v: Seq<u32>, k: int)
+    requires
+        0 <= k <= v.len(),
+    ensures
+        img_u32s(v, k).len() == 4 * k,
+        forall|i: int| 0 <= i < k ==> #[trigger] be32(img_u32s(v, k), 4 * i) == v[i],
+    decreases k,
+{
+    if k > 0 {
+        lemma_img_u32s(v, k - 1);
+        let prev = img_u32s(v, k - 1);
+        let cur = img_u32s(v, k);
+        lemma_be32_img(v[k - 1] as int);
+        assert forall|i: int| 0 <= i < k implies #[trigger] be32(cur, 4 * i) == v[i] by {
+            if i < k - 1 {
+                assert(cur.subrange(0, 4 * (k - 1)) =~= prev);
+                lemma_prefix_read32(cur, prev, 4 * i);
+            } else {
+                assert(cur.subrange(4 * (k - 1), 4 * k) =~= img_be32(v[k - 1] as int));
+                lemma_be32_at(cur, 4 * (k - 1), v[k - 1] as int);
+            }
+        }
+    }
+}
+
+pub proof fn lemma_pad4(n: int)
+    requires
+        0 <= n,
+    ensures
+        pad4(n) % 4 == 0,
+        n <= pad4(n) < n + 4,
+{
+}
+
+pub open spec fn bye_body(sources: Seq<u32>, reason: Seq<u8>) -> Seq<u8> {
+    img_u32s(sources, sources.len() as int) + img_bye_reason(reason)
+}
+
+pub proof fn lemma_bye_reason_img(reason: Seq<u8>)
+    requires
+        0 < reason.len() <= 255,
+    ensures
+        img_bye_reason(reason).len() == pad4(1 + reason.len() as int),
+        img_bye_reason(reason)[0] == reason.len(),
+        img_bye_reason(reason).subrange(1, 1 + reason.len() as int) == reason,
+{
+    let r = img_bye_reason(reason);
+    lemma_pad4(1 + reason.len() as int);
+    assert(r.subrange(1, 1 + reason.len() as int) =~= reason);
+}
+
+/// reading inside a sub-range: s[a..b] == t  ==>  be32(s, a + o) == be32(t, o)
+pub proof fn lemma_sub_read32(s: Seq<u8>, a: int, b: int, t: Seq<u8>, o: int)
+    requires
+        0 <= a <= b <= s.len(),
+        s.subrange(a, b) == t,
+        0 <= o,
+        o + 4 <= t.len(),
+    ensures
+        be32(s, a + o) == be32(t, o),
+{
+    let u = s.subrange(a, b);
+    assert(u[o] == s[a + o] && u[o + 1] == s[a + o + 1] && u[o + 2] == s[a + o + 2] && u[o + 3] == s[a + o + 3]);
+}
+
+#[verifier::spinoff_prover]
+pub proof fn lemma_bye_body(s: Seq<u8>, sources: Seq<u32>, reason: Seq<u8>)
+    requires
+        reason.len() <= 255,
+        4 + bye_body(sources, reason).len() <= s.len(),
+        s.subrange(4, 4 + bye_body(sources, reason).len() as int) == bye_body(sources, reason),
+    ensures
+        bye_body(sources, reason).len() == 4 * sources.len() + (if reason.len() > 0 { pad4(1 + reason.len() as int) } else { 0 }),
+        forall|i: int| 0 <= i < sources.len() ==> #[trigger] bye_ssrc(s, i) == sources[i],
+        reason.len() > 0 ==> s[4 + 4 * sources.len() as int] == reason.len() && s.subrange(4 + 4 * sources.len() as int + 1, 4 + 4 * sources.len() as int + 1 + reason.len() as int) == reason,
+{
+    let n = sources.len() as int;
+    let srcs = img_u32s(sources, n);
+    let rimg = img_bye_reason(reason);
+    let body = bye_body(sources, reason);
+    lemma_img_u32s(sources, n);
+    if reason.len() > 0 {
+        lemma_bye_reason_img(reason);
+    }
+    assert(body.subrange(0, 4 * n) =~= srcs);
+    assert(body.subrange(4 * n, body.len() as int) =~= rimg);
+    assert forall|i: int| 0 <= i < n implies #[trigger] bye_ssrc(s, i) == sources[i] by {
+        lemma_sub_read32(s, 4, 4 + body.len() as int, body, 4 * i);
+        lemma_prefix_read32(body, srcs, 4 * i);
+    }
+    if reason.len() > 0 {
+        let off = 4 + 4 * n;
+        assert(s[off] == body[4 * n]);
+        assert(body[4 * n] == rimg[0]);
+        let lhs = s.subrange(off + 1, off + 1 + reason.len());
+        let rhs = rimg.subrange(1, 1 + reason.len() as int);
+        assert forall|j: int| 0 <= j < reason.len() implies #[trigger] lhs[j] == rhs[j] by {
+            assert(s.subrange(4, 4 + body.len() as int)[4 * n + 1 + j] == s[off + 1 + j]);
+            assert(body.subrange(4 * n, body.len() as int)[1 + j] == body[4 * n + 1 + j]);
+        }
+        assert(lhs =~= rhs);
+    }
+}
+
+#[verifier::spinoff_prover]
+// @LEMMA C04
+pub proof fn lemma_roundtrip_bye(b: &crate::ByeBuilder)
+    requires
+        b.spec_calc() is Ok,
+    ensures
+        ({
+            let s = b.spec_bytes();
+            let reason = cow_str_bytes(&b.reason);
+            &&& s.len() == b.spec_calc()->Ok_0
+            &&& bye_wf(s)
+            &&& hdr_count(s) == b.sources@.len()
+            &&& forall|i: int| 0 <= i < b.sources@.len() ==> #[trigger] bye_ssrc(s, i) == b.sources@[i]
+            &&& pad_count(s) == b.padding
+            &&& 4 + 4 * hdr_count(s) + pad_count(s) <= s.len()
+            &&& bye_reason(s) == (if reason.len() > 0 { Some(reason) } else { None::<Seq<u8>> })
+            &&& hdr_pad(s) == (b.padding > 0)
+            &&& (b.padding > 0 ==> s[s.len() - 1] == b.padding)
+        }),
+{
+    let s = b.spec_bytes();
+    let reason = cow_str_bytes(&b.reason);
+    let n = b.sources@.len() as int;
+    let pad = b.padding as int;
+    let body = bye_body(b.sources@, reason);
+    lemma_img_u32s(b.sources@, n);
+    lemma_pad4(1 + reason.len() as int);
+    if reason.len() > 0 {
+        lemma_bye_reason_img(reason);
+    }
+    assert(body.len() == 4 * n + (if reason.len() > 0 { pad4(1 + reason.len() as int) } else { 0 }));
+    assert(4 + body.len() + pad == bye_size(n, pad, reason.len() as int));
+    assert(s == img_header(pad, n, 203, 4 + body.len() + pad) + body + img_padding(pad)) by {
+        assert(img_header(pad, n, 203, 4 + body.len() + pad) + img_u32s(b.sources@, n) + img_bye_reason(reason) =~= img_header(pad, n, 203, 4 + body.len() + pad) + body);
+    }
+    lemma_framed_image(s, body, pad, n, 203, 4);
+    lemma_bye_body(s, b.sources@, reason);
+}
+
+// @LEMMA C04
+pub fn vp_roundtrip_bye(b: &crate::ByeBuilder, buf: &mut [u8])
+    requires
+        b.spec_calc() is Ok,
+        old(buf).len() == b.spec_calc()->Ok_0,
+{
+    let n = b.write_into_unchecked(buf);
+    proof {
+        lemma_roundtrip_bye(b);
+    }
+    let parsed = crate::Bye::parse(buf);
+    assert(parsed is Ok);
+    let p = parsed.unwrap();
+    let pad = p.padding();
+    assert(pad == (if b.padding == 0 { None::<u8> } else { Some(b.padding) }));
+    let reason = p.reason();
+    assert(match reason {
+        Some(t) => cow_str_bytes(&b.reason).len() > 0 && t@ == cow_str_bytes(&b.reason),
+        None => cow_str_bytes(&b.reason).len() == 0,
+    });
+    let ssrcs = p.ssrcs();
+    assert(iter_view(&ssrcs).len() == b.sources@.len());
+    assert forall|i: int| 0 <= i < b.sources@.len() implies (#[trigger] iter_view(&ssrcs)[i]) == b.sources@[i] by {
+        assert(bye_ssrc(buf@, i) == b.sources@[i]);
+    }
+}
+
+} // verus!
